@@ -14,25 +14,20 @@ sys.path.insert(0, ROOT)
 from lib import flow, props, vcheck as V  # noqa: E402
 
 HALVES = {
-    "C09": ("C09server", "c09"),
-    "C10": ("C10server", "c10"),
-    "C11": ("C11server", "c11"),
-    "C14": ("C14server", "c14"),
-    "C18": ("C18server", "c18"),
+    "C09": props.C09_SERVER_PART,
+    "C10": props.C10_SERVER_PART,
+    "C11": props.C11_SERVER_PART,
+    "C14": props.C14_SERVER_PART,
+    "C18": props.C18_SERVER_PART,
 }
 
 
 def spec_of(pid):
-    chk, bias = HALVES[pid]
-    return {
-        "pid": pid + "s",
-        "harness": "srv",
-        "gen_args": ["--prop", bias],
-        "coq_targets": [f"Checks/{chk}.vo"],
-        "cases_header": props.SRV_HDR.format(chk=chk),
-        "case_term": lambda c: f"({c['cfg']}, {c['ops']}, {c['obs']})",
-        "shrink_budget": 30,
-    }
+    """The part exactly as the owning spec will use it, under the private pid <pid>s (own out/ and corpus dirs)."""
+    part = dict(HALVES[pid])
+    chk = part["cases_header"].split("Checks.")[-1].split(".")[0]
+    part.update({"pid": pid + "s", "coq_targets": [f"Checks/{chk}.vo"]})
+    return part
 
 
 def main():
@@ -67,9 +62,9 @@ def main():
         if os.path.isdir(cdir):
             for f in sorted(os.listdir(cdir)):
                 lines += [l.strip() for l in open(os.path.join(cdir, f)) if l.strip() and not l.startswith("#")]
-        lines += R.gen_lines(seed, 450 if tier == "quick" else 16000)
+        lines += R.gen_lines(seed, spec[tier]["count"])
         if tier == "thorough":
-            lines += [l for l in V.harness(["srv", "sweep", "--prop", HALVES[pid][1]], timeout=1500).split("\n") if l.strip()]
+            lines += [l for l in V.harness(["srv", "sweep"] + spec["gen_args"], timeout=1500).split("\n") if l.strip()]
         cases, codes = R.run_scripts(lines, "main")
         mism = [i for i, c in enumerate(codes) if c & 1]
         monf = [i for i, c in enumerate(codes) if c & 2]
